@@ -44,6 +44,8 @@ SessionWorld::SessionWorld(const Plan &plan, Trace &tr, RunResult &res) : plan(p
     server = new ScriptedServer(profile, plan.seed);
     server->accounts[plan.sknob(QStringLiteral("user"), QStringLiteral("alice"))] = plan.sknob(QStringLiteral("serverPassword"), plan.sknob(QStringLiteral("password"), QStringLiteral("correct horse")));
     server->note = [this](const QString &s) { this->trace.log(s); };
+    server->redirectsLeft = (int)plan.knob(QStringLiteral("redirects"), 0);
+    server->redirectTarget = plan.sknob(QStringLiteral("redirectTarget"), QStringLiteral("alt.sim:5299"));
     config = configFromPlan(plan);
     tlsPolicy = (int)plan.knob(QStringLiteral("tlsHandshake"), 0);
 }
@@ -73,6 +75,9 @@ void SessionWorld::createClient(QXmppClient::InitialExtensions ext)
         s->link = l;
         s->side = 0;
         links.append(l);
+        if (onNewLink) {
+            onNewLink(l);
+        }
         connectPending = true;
         tlsPending = false;
         pendingHost = host;
